@@ -300,7 +300,12 @@ class RecEOF(xeofs.single.EOF):
 
 def _data(c, rng):
     n = c["n"]
-    if c["struct"] == "2d":
+    if c["struct"] == "wide":
+        # three dominant modes over a noise floor, rank well above n_modes + the sketch's oversampling
+        U, _ = np.linalg.qr(rng.standard_normal((n, 3)))
+        V, _ = np.linalg.qr(rng.standard_normal((40, 3)))
+        X = real.da2((U * np.array([30.0, 20.0, 12.0])) @ V.T + 1.5 * rng.standard_normal((n, 40)), sample=c["dim"], feature="x")
+    elif c["struct"] == "2d":
         X = real.da2(real.matrix(rng, n, 7) + 0.3 * rng.standard_normal((n, 7)) + c.get("offset", 0.0), sample=c["dim"], feature="x")
     elif c["struct"] == "3d":
         X = real.da3(real.matrix(rng, n, 12) + 0.3 * rng.standard_normal((n, 12)) + c.get("offset", 0.0), 3, sample=c["dim"])
@@ -328,8 +333,17 @@ def eval_case(c):
     kw = dict(n_modes=c["k"], center=c["center"], standardize=c["standardize"], use_coslat=c.get("coslat", False))
     if c["names"]:
         kw.update(sample_name="smp", feature_name="ftr")
-    model = xeofs.single.EOF(**kw).fit(X, c["dim"])
+    mname = c.get("model", "EOF")
+    if mname == "ComplexEOF":
+        X = X + 1j * X.isel({c["dim"]: slice(None, None, -1)}).assign_coords({c["dim"]: X[c["dim"]]}) * 0.7
+    if c.get("dask"):
+        X = X.chunk({c["dim"]: 40})
+        kw.update(compute=True)
+    model = getattr(xeofs.single, mname)(**kw).fit(X, c["dim"])
+    cplx = mname != "EOF"
     B = c["B"]
+    # the compressed (dask) back end is a randomised method: members are compared to its accuracy, not to rounding
+    tol, tolv = (1e-8, 1e-6) if not c.get("dask") else (1e-3, 1e-2)
     bs, fits = _boot(model, B, c["bseed"])
     sn, fn = model.sample_name, model.feature_name
     msgs = []
@@ -361,7 +375,7 @@ def eval_case(c):
         k = c["k"]
         lam = s[:k] ** 2 / (n - 1)
         e_i = ev.isel(n=i).values
-        if real.relerr(e_i, lam) > 1e-8:
+        if real.relerr(e_i, lam) > tol:
             msgs.append(f"member {i}: explained variance {e_i[:3]} != EOF of the resample {lam[:3]}")
         t_i = float(tv.isel(n=i).values)
         if abs(t_i - (s ** 2).sum() / (n - 1)) > 1e-8 * max(1.0, t_i):
@@ -369,18 +383,18 @@ def eval_case(c):
         if np.any(e_i < -1e-12) or np.any(np.diff(e_i) > 1e-10 * max(1.0, e_i[0])) or e_i.sum() > t_i * (1 + 1e-9):
             msgs.append(f"member {i}: explained variances not non-negative descending within the total variance")
         C = comps.isel(n=i).transpose(fn, "mode").values
-        if real.abserr(C.T @ C, np.eye(k)) > 1e-8:
+        if real.abserr(C.conj().T @ C, np.eye(k)) > max(tol, 1e-8) * (1e-4 if c.get('dask') else 1):
             msgs.append(f"member {i}: components not orthonormal")
         gap = np.min(np.abs(np.diff(s[:k + 1]))) / s[0] if k + 1 <= len(s) else 1.0
         if gap > 1e-6:
             proj = np.abs(np.sum(C * Vt[:k].T, axis=0))
-            if np.any(np.abs(proj - 1) > 1e-6):
+            if np.any(np.abs(proj - 1) > tolv):
                 msgs.append(f"member {i}: components are not the EOFs of the resample (|<c, v>| = {proj[:3]})")
         Sc = scores.isel(n=i).transpose(sn, "mode").values
         want = (inp - R.mean(0)) @ C
         if real.relerr(Sc, want) > 1e-8:
             msgs.append(f"member {i}: scores are not the projection of the original samples onto the member's components")
-        for m in range(k):
+        for m in range(k if not cplx else 0):      # orientation of complex modes is a phase: not evaluated
             a, b_ = Sc[:, m], msc[:, m]
             if np.std(a) > 0 and np.std(b_) > 0:
                 r = np.corrcoef(a, b_)[0, 1]
@@ -404,7 +418,7 @@ def eval_case(c):
     if not all(np.array_equal(a.values, b_.values) for a, b_ in zip(fits, fits2)):
         msgs.append("the same seed gave different resamples")
     for nm in ("explained_variance", "components", "scores"):
-        if real.relerr(bs2.data[nm].values, bs.data[nm].values) > 1e-8:
+        if real.relerr(bs2.data[nm].values, bs.data[nm].values) > (tol if nm == 'explained_variance' else max(tol, 1e-8) * (5 if c.get('dask') else 1)):
             msgs.append(f"the same seed gave different {nm}")
     # results carry the model's own structure
     try:
@@ -435,6 +449,9 @@ def bounded_cases(tier, seed):
     cases.append(dict(struct="2d", names=False, center=True, standardize=False, B=50, k=2, n=30, dim="time", keep=True))
     cases.append(dict(struct="2d", names=False, center=True, standardize=False, B=3, k=2, n=30, dim="time", keep=True, bseed0=True))
     cases.append(dict(struct="2d", names=True, center=False, standardize=False, B=6, k=2, n=40, dim="time", offset=5.0, keep=True))
+    for mname in ("ComplexEOF", "HilbertEOF"):
+        cases.append(dict(struct="2d", names=mname == "HilbertEOF", center=True, standardize=False, B=3, k=2, n=30, dim="time", model=mname, keep=True))
+    cases.append(dict(struct="wide", names=False, center=True, standardize=False, B=2, k=2, n=80, dim="time", dask=True, keep=True))
     for i, c in enumerate(cases):
         c["seed"] = int(seed) * 1000 + i
         c["bseed"] = 0 if c.get("bseed0") else int(rng.integers(0, 2 ** 31))
@@ -446,6 +463,10 @@ def bounded_cases(tier, seed):
 def run_bounded(res, tier, seed):
     for c in bounded_cases(tier, seed):
         sig = {k: c.get(k) for k in ("struct", "names", "center", "standardize")}
+        if c.get("model"):
+            sig["model"] = c["model"]
+        if c.get("dask"):
+            sig["dask"] = True
         try:
             ok, detail = eval_case(c)
         except Exception as e:  # noqa: BLE001
